@@ -165,6 +165,23 @@ func (m c08) program(c *core.Ctx, src string, mods map[string]string, bm []strin
 				soloFor(id)
 			}
 			for _, reuse := range []bool{false, true} {
+				// decoded bytecode: every concurrent round gets its own freshly decoded copy that no VM has run yet
+				// (first-use initialisation inside shared Bytecode must be safe too); solo outcomes come from another copy
+				bc := bc
+				roundBefore := before
+				if decoded {
+					b, err, pan := safeEncode(cr.bc)
+					if err != nil || pan != "" {
+						continue
+					}
+					d, err, pan := safeDecode(b, mm)
+					if err != nil || pan != "" {
+						continue
+					}
+					bc = d
+					roundBefore = string(encodeBytes(bc))
+					c.Count("fresh_decoded_rounds")
+				}
 				sh := &c08shared{}
 				reps := c.Pick(3, 12)
 				type res struct {
@@ -209,6 +226,10 @@ func (m c08) program(c *core.Ctx, src string, mods map[string]string, bm []strin
 					c.Nontrivial(fmt.Sprintf("%x|%d|%v|%v", hashStr(src), n, reuse, decoded))
 				}
 				c.SetAdd("max_vms_inside_run_at_once", fmt.Sprintf("N=%d:max=%d", n, sh.maxSeen.Load()))
+				if decoded && string(encodeBytes(bc)) != roundBefore {
+					c.Violation("C08|bytecode-modified", "shared Bytecode changed while VMs were running it", c08wit{Src: src, Modules: mods, Decoded: decoded, N: n, Reuse: reuse, Why: "bytecode modified (freshly decoded copy)"})
+					return
+				}
 				for _, r := range results {
 					c.Count("concurrent_runs")
 					want := soloFor(r.id)
